@@ -297,6 +297,10 @@ def _validate_chunk(spec, wd, execs, want, tag, abs_only=False):
         if r.violated:
             inv = r.violated[0]
             prop = spec.inv_props.get(inv, spec.primary)
+            fin = end.get("final") or {}
+            if inv == "AbsEnd" and any(str(fin.get(k, "0")) not in ("0", "") for k in ("live", "locals_live", "flive")):
+                # something the library owns is still alive at the end: that is C03's business as well
+                prop = tuple(prop if isinstance(prop, (tuple, list)) else (prop,)) + ("C03",)
             what = "invariant %s of %s_Trace is violated by a recorded execution of scenario %s %s at its line %d: %s" % (
                 inv, spec.name, spec.scenario, params_key(params), rel + 1, json.dumps(ex[min(rel, len(ex) - 1)])[:400])
             if ex[0].get("tailsplit") and not inv.startswith("Abs"):  # (kept for chunks validated with the full cfg)
